@@ -10,7 +10,8 @@ chain in chain order with tol.unwrap_or(1e-6); Mesh::split maps Pair->Pair (both
 Negative->Negative, Positive->Positive; chained_indices consumes every segment when it uses it (append/prepend paired with
 swap_remove of the same candidate, seed popped), starts every new chain in forward mode, stops at ambiguous junctions, and each
 of its cycles consumes a pair, switches direction or flushes the finished chain.
-Mesh::transform moves the vertices on every path (shared with C03); Mesh::create_box hands width, height, depth to box_geom in its own order (shared with C12)."""
+Mesh::transform moves the vertices on every path (shared with C03); Mesh::create_box hands width, height, depth to box_geom in its own order (shared with C12).
+The on-plane epsilon of section is a constant <= 1e-6; every exit of split, of each kind, is parry's verdict (no short-cut classification)."""
 NOT_DECIDED = "incidence of section vertices with the plane and the surface, closedness for watertight meshes, area conservation (all parry)"
 ASSUMPTIONS = ["parry intersection_with_local_plane returns a polyline whose index pairs are the crossing segments"]
 
